@@ -45,6 +45,10 @@ add("C19", "exhaustive enumeration of neutral source edits at every token bounda
     "For every seed (micro-programs, F1/F2 representatives, corpus files) every trivia insertion of 14 kinds at every token boundary, every template-closer adjacency (`>>`, `>=`, `>>=`) created or split, whitespace removal next to non-merging punctuation, three injective renamings (longer, shorter, reversed lexicographic order) and, for generated seeds, redundant parentheses around every expression node. Oracle: acceptance unchanged; lowered module identical up to names and spans; SPIR-V bytes identical; HLSL/MSL/GLSL text identical (for renamings: identical up to the applied renaming).",
     "Edits are neutral by the WGSL grammar; the site enumeration uses an independent tokenizer (internal/wgen/tokens.go). Entry-point names and swizzle-like names are never renamed.", "DESIGN.md §3 C19")
 
+add("C11", "exhaustive (seed, rule, site) enumeration: each diagnosed rule broken at every syntactic site of every seed, compiled by the real pipeline",
+    "For each seed (micro-programs, F1/F2 representatives) every rule of the property is broken at every site where it applies: identifier/type/function/member uses replaced by undeclared names, one argument dropped/added/retyped at every user call, @must_use call and const_assert false inserted at every statement and declaration position, @group/@binding removed at every resource, array sizes 0 and -1, mixed/too-wide swizzles, every mandatory ';' and every delimiter deleted, @workgroup_size removed, /0 and %0 at every const-expression literal. Oracle: error and no output; position inside the source; for semantic rules inside the enclosing module-scope declaration; exact first offending token where the grammar determines it.",
+    "Sites are located by an independent tokenizer; exact positions are demanded only where determined by construction (DESIGN.md §3 C11).", "DESIGN.md §3 C11")
+
 NA = {
 }
 for i in range(1, 20):
